@@ -181,7 +181,9 @@ def r2(ctx, vb, core, RULE='R-C03-2'):
     evs = ctx.eng.bx(core).events_on(('L', rl))
     pushes = [e for e in evs if e['decl'] == 'std::vec::Vec::<T, A>::push']
     others = [e for e in evs if e['decl'] != 'std::vec::Vec::<T, A>::push']
-    rep.floor(RULE, 'result push sites', len(pushes), 2)
+    # a push of `match .. { Some(..) => Some(mask), _ => None }` is one site with two alternative values
+    nalt = sum(len(ctx.alternatives(core, e['bb'], TERM_IDX, e['args'][0])) for e in pushes)
+    rep.floor(RULE, 'result push sites', nalt, 2)
     for e in others:
         rep.violation(RULE, RULE + '/core/result-vector/%s' % e['decl'].split('::')[-1], 'the result vector is modified by %s (only one push per member is expected)' % e['decl'], ctx.where(core, e['bb']))
     if not pushes:
